@@ -83,3 +83,81 @@ Proof.
   - intros R C R' C' HRC HRC' Hb Hr Hc. apply z_update_toeplitz; assumption.
 Qed.
 Print Assumptions C02_code_z_toeplitz.
+
+(* ---- the convergence test of admm/solver.py AS TRANSLATED = the model's test on the norms the code forms ---- *)
+Theorem C02_code_convergence_test : forall (F : Type) (add sub mul : F -> F -> F) (sqrt : F -> F) (ltb leb : F -> F -> bool)
+    (of_nat : nat -> F) (of_int : Z -> F) (flit : string -> F) (np_norm : list F -> F),
+  (forall n : nat, of_int (Z.of_nat n) = of_nat n) ->
+  forall (abs_tol rel_tol rho : F) (verbose : bool) (u x z z_old : list F),
+  length x = length z -> length z = length z_old ->
+  let nx := np_norm x in
+  let nz := np_norm z in
+  let nru := np_norm (map (mul rho) u) in
+  let rp := np_norm (map2 sub x z) in
+  let rd := np_norm (map (mul rho) (map2 sub z z_old)) in
+  let tols := tolerances add mul sqrt ltb of_nat (length x) abs_tol rel_tol (flit "0.0001"%string) nx nz nru in
+  g_check_convergence F add sub mul ltb of_int leb flit sqrt np_norm (mk_admm_tol_args abs_tol rel_tol rho verbose) u x z z_old
+  = Ret (converged add mul sqrt ltb leb of_nat (length x) abs_tol rel_tol (flit "0.0001"%string) nx nz nru rp rd,
+         rp, fst tols, rd, snd tols).
+Proof. exact g_check_convergence_eq. Qed.
+Print Assumptions C02_code_convergence_test.
+
+(* ---- the control flow of run_admm_optimization AS TRANSLATED (skeleton mode, Gen/G_solver_loop.v; every callee an
+   uninterpreted oracle that may return anything or raise; equivalence with the hand model and the facts below:
+   Proofs/GenEquivSL.v) ---- *)
+From Ticc Require Import Gen.PySkel Gen.G_solver_loop Model.AdmmLoopV Proofs.GenEquivSL.
+
+Section Loop.
+  Variable V : Type.
+  Variable vnone : V.
+  Variable vint : Z -> V.
+  Variable as_int : V -> option Z.
+  Variable getattr : V -> string -> V.
+  Variable truthy : V -> bool.
+  Variable oracle : list (event V) -> string -> list V -> res V.
+  Notation run := (g_run_admm_optimization V vnone vint as_int getattr truthy oracle).
+
+  (* at most max_iterations X updates, whether the run returns or raises *)
+  Theorem C02_code_iteration_bound : forall (args S : V) (log : list (event V)) (lim : Z),
+    as_int (getattr args "max_iterations") = Some lim ->
+    exists ext, snd (run args S log) = (log ++ ext)%list /\ count_fn V f_x ext <= Z.to_nat lim.
+  Proof.
+    intros args S log lim H. rewrite g_run_admm_eq. apply admm_x_updates_bounded. exact H.
+  Qed.
+
+  (* the value returned is the X of the last iteration *)
+  Theorem C02_code_returns_last_x : forall (args S x : V) (log log' : list (event V)),
+    run args S log = (Ret x, log') ->
+    exists ext, log' = (log ++ ext)%list /\
+      (count_fn V f_x ext = 0 \/
+       exists pre post u z, ext = (pre ++ Ev f_u [u; x; z] :: post)%list /\
+                            count_fn V f_u post = 0 /\ count_fn V f_x post = 0).
+  Proof.
+    intros args S x log log' H. rewrite g_run_admm_eq in H. eapply admm_returns_last_x. exact H.
+  Qed.
+
+  (* "whenever the optimiser stops before exhausting its iteration budget": then the last thing it did was a
+     check_convergence call on the iterate it returns, which the test answered with a truthy first component *)
+  Theorem C02_code_early_stop_only_on_convergence : forall (args S x : V) (log log' : list (event V)) (lim : Z),
+    as_int (getattr args "max_iterations") = Some lim ->
+    run args S log = (Ret x, log') ->
+    exists ext, log' = (log ++ ext)%list /\
+      (count_fn V f_x ext = Z.to_nat lim \/
+       exists pre args' u z z_old r,
+         log' = (pre ++ [Ev f_chk [args'; u; x; z; z_old]])%list /\
+         oracle pre f_chk [args'; u; x; z; z_old] = Ret r /\ truthy (getattr r "[0]") = true).
+  Proof.
+    intros args S x log log' lim Hl H. rewrite g_run_admm_eq in H. eapply admm_early_stop_converged; eassumption.
+  Qed.
+
+  (* no convergence test before the second iteration *)
+  Theorem C02_code_no_test_in_first_iteration : forall (args S : V) (log pre : list (event V)) (a : list V) (post : list (event V)),
+    snd (run args S log) = (log ++ pre ++ Ev f_chk a :: post)%list -> 2 <= count_fn V f_x pre.
+  Proof.
+    intros args S log pre a post H. rewrite g_run_admm_eq in H. eapply admm_check_after_two. exact H.
+  Qed.
+End Loop.
+Print Assumptions C02_code_iteration_bound.
+Print Assumptions C02_code_returns_last_x.
+Print Assumptions C02_code_early_stop_only_on_convergence.
+Print Assumptions C02_code_no_test_in_first_iteration.
